@@ -1550,7 +1550,7 @@ package leveldb
 // temporary file.
 //@ ghost var gCreated bool
 //@ func recoverTable$1
-//@   props C19 C06
+//@   props C19
 //@   safety off
 //@   at before call storage.Syncer.Sync#1
 //@     assert [C19:rebuilt-table-is-complete-before-it-is-synced] calls("(*Writer).Close") == old(calls("(*Writer).Close")) + 1
@@ -1564,7 +1564,7 @@ package leveldb
 // comparer and filter - not with the caller's raw options, whose comparer orders user keys (F15: two versions of a
 // key made the rebuild fail, and the index of a rebuilt table broke the first lookup in it).
 //@   at before call NewWriter#1
-//@     assert [C06,C19:a-rebuilt-table-is-written-with-the-sessions-table-options] arg1 == s.o.Options
+//@     assert [C19:a-rebuilt-table-is-written-with-the-sessions-table-options] arg1 == s.o.Options
 
 // C19: Recover rebuilds the table list by scanning every table file (callback 3 of recoverTable, verified as a
 // unit). Per table: the sequence number it reports is not below any valid entry's (together with gLow: it never
